@@ -465,7 +465,7 @@ class Enumerator:
         return [(st, CONTINUE)]
 
     def s_Assert(self, s: ast.Assert, st: St):
-        return [(st2, NORMAL) for st2, truth in self.branch(s.test, st) if truth]
+        return [(st2, ("raise", truth[1]) if isinstance(truth, tuple) else NORMAL) for st2, truth in self.branch(s.test, st) if truth]
 
     def s_Assign(self, s: ast.Assign, st: St):
         out = []
@@ -544,6 +544,9 @@ class Enumerator:
     def s_If(self, s: ast.If, st: St):
         out = []
         for st2, truth in self.branch(s.test, st):
+            if isinstance(truth, tuple):
+                out.append((st2, truth))
+                continue
             out.extend(self.exec_block(s.body if truth else s.orelse, st2))
         return out
 
@@ -579,6 +582,9 @@ class Enumerator:
             self._havoc(sa, names, attrs, f"after{tag}")
             exits = [(sa, False)] if exit_test is None else self.branch(exit_test, sa)
             for se, truth in exits:
+                if isinstance(truth, tuple):
+                    out.append((se, truth))
+                    continue
                 if exit_test is not None and truth:
                     continue  # loop continues; only the false outcome leaves
                 out.extend(self.exec_block(node.orelse, se))
@@ -615,12 +621,14 @@ class Enumerator:
         names, attrs = _assigned_names(s.body), _stored_attrs(s.body)
         # zero iterations
         for st0, truth in self.branch(s.test, st.fork()):
-            if not truth:
+            if isinstance(truth, tuple):
+                out.append((st0, truth))
+            elif not truth:
                 out.extend(self.exec_block(s.orelse, st0))
         # body from a havocked state in which the test holds
         hv = st.fork()
         self._havoc(hv, names, attrs, tag)
-        entered = [b for b, truth in self.branch(s.test, hv) if truth]
+        entered = [b for b, truth in self.branch(s.test, hv) if truth is True]
         for body_st in entered:
             st1 = st.fork()
             res = self._loop_common(s, st1, body_st, "while", render(s.test), tag, s.test)
@@ -806,11 +814,12 @@ class Enumerator:
     def ev(self, e: ast.expr, st: St) -> list[tuple[St, ast.expr, str | None]]:
         """Evaluate to terms; forks on IfExp / inlined callee paths / raised kinds."""
         if not _has_interesting(e):
-            return [(st, self.subst(e, st), None)]
+            return [(st, self.cfg.canon_term(self.subst(e, st), st), None)]
         m = getattr(self, "e_" + type(e).__name__, None)
-        if m is not None:
-            return m(e, st)
-        return self._e_generic(e, st)
+        res = m(e, st) if m is not None else self._e_generic(e, st)
+        if type(self.cfg).canon_term is not Cfg.canon_term:
+            res = [(s2, self.cfg.canon_term(t, s2) if x is None and isinstance(t, ast.AST) else t, x) for s2, t, x in res]
+        return res
 
     def _e_generic(self, e: ast.expr, st: St):
         """Evaluate child expressions left to right and rebuild the node."""
@@ -867,6 +876,9 @@ class Enumerator:
     def e_IfExp(self, e: ast.IfExp, st: St):
         out = []
         for st2, truth in self.branch(e.test, st):
+            if isinstance(truth, tuple):
+                out.append((st2, e, truth[1]))
+                continue
             out.extend(self.ev(e.body if truth else e.orelse, st2))
         return out
 
@@ -1071,7 +1083,9 @@ class Enumerator:
                 nxt = []
                 for cur, _ in pending:
                     for s2, truth in self.branch(v, cur):
-                        if is_and and not truth:
+                        if isinstance(truth, tuple):
+                            res.append((s2, truth))
+                        elif is_and and not truth:
                             res.append((s2, False))
                         elif not is_and and truth:
                             res.append((s2, True))
@@ -1082,28 +1096,29 @@ class Enumerator:
             res.extend(pending)
             return res
         if isinstance(test, ast.UnaryOp) and isinstance(test.op, ast.Not):
-            return [(s, not t) for s, t in self.branch(test.operand, st)]
+            return [(s, t if isinstance(t, tuple) else (not t)) for s, t in self.branch(test.operand, st)]
         if isinstance(test, ast.Constant):
             return [(st, bool(test.value))]
         if isinstance(test, ast.IfExp):
             out = []
             for s2, truth in self.branch(test.test, st):
+                if isinstance(truth, tuple):
+                    out.append((s2, truth))
+                    continue
                 out.extend(self.branch(test.body if truth else test.orelse, s2))
             return out
         if isinstance(test, ast.NamedExpr):
             out = []
             for s2, t, exc in self.ev(test, st):
                 if exc:
+                    out.append((s2, ("raise", exc)))
                     continue
                 out.extend(self._atom(t, s2, test))
             return out
         out = []
         for s2, t, exc in self.ev(test, st):
             if exc:
-                # a raising condition leaves through the exceptional edge; the branch engine cannot return
-                # an outcome, so record it for the caller (conditions that raise are rare; rules that care
-                # put the fallible call in a statement of its own)
-                self.emit(s2, "cond_raised", exc, test)
+                out.append((s2, ("raise", exc)))  # a raising condition leaves through the exceptional edge
                 continue
             out.extend(self._atom(t, s2, test))
         return out
